@@ -7,14 +7,39 @@ from ..common import rng, ToolError
 UNSUPPORTED = {"EOPNOTSUPP": 95, "EINVAL": 22, "EXDEV": 18, "ETXTBSY": 26}
 HARD = {"EIO": 5, "EPERM": 1, "ENOSPC": 28}
 
-def trees():
+def trees(rnd, quick):
+    sp1 = E("s/sp", "file", "C15-sparse"); sp1["meta"]["sparse"] = [1, 0, 0, 1, 0]
+    sp2 = E("s/sp40", "file", "C15-sparse40"); sp2["meta"]["sparse"] = [1, 0] * 36
+    big = E("s/big", "file", "C15-big"); big["meta"]["data"] = bytes(range(1, 200)) * 40
     out = {
+        "sparse": ([E("s", "dir"), sp1, sp2, big, E("s/e", "file", "E")], True),
+        "overwrite": (tree("s", {"a": "F1", "b": "F2", "e": "E"}) + tree("d", {"s": {"a": "G1", "e": "G2", "b": "E"}}), True),
         "single": ([E("s", "file", "F1")], False),
         "single-empty": ([E("s", "file", "E")], False),
         "small": (tree("s", {"a": "F1", "b": "F2", "e": "E", "sub": {"c": "F3", "e2": "E"}, "l": ("link", "a")}), True),
         "empties": (tree("s", {"e1": "E", "e2": "E", "d": {"e3": "E"}}), True),
         "many": (tree("s", {("f%02d" % i): "F%d" % (i % 9 + 1) for i in range(24)}), True),
     }
+    # seeded random shapes: nesting, empty / small / multi-block files, links, an older copy at the destination
+    for i in range(2 if quick else 40):
+        shape, old = {}, {}
+        def fill(sh, o, depth):
+            for j in range(rnd.randint(1, 5)):
+                r = rnd.random()
+                if r < 0.2 and depth < 3:
+                    sh["d%d" % j] = {}; o["d%d" % j] = {}
+                    fill(sh["d%d" % j], o["d%d" % j], depth + 1)
+                elif r < 0.35:
+                    sh["e%d" % j] = "E"
+                elif r < 0.45:
+                    sh["l%d" % j] = ("link", "nowhere")
+                else:
+                    sh["f%d" % j] = "F%d" % rnd.randint(1, 9)
+                    if rnd.random() < 0.3:
+                        o["f%d" % j] = rnd.choice(["G1", "E"])
+        fill(shape, old, 0)
+        fs = tree("s", shape) + (tree("d", {"s": old}) if rnd.random() < 0.5 else [])
+        out["rand%d" % i] = (fs, True)
     return out
 
 def run(ctx):
@@ -27,7 +52,8 @@ def run(ctx):
     jobs = []
     answers = [("real", None)] + [("unsupported:" + k, "clone=errno:%d" % v) for k, v in UNSUPPORTED.items()] + \
               [("error:" + k, "clone=errno:%d" % v) for k, v in HARD.items()] + [("ok", "clone=emulate")]
-    for tname, (fs, rec) in trees().items():
+    rnd = rng("C15")
+    for tname, (fs, rec) in trees(rnd, quick).items():
         for drv in ("parfile", "parblock"):
             for mode in ("auto", "never", "always"):
                 for aname, plan in answers:
@@ -38,7 +64,8 @@ def run(ctx):
     def one(j):
         sc, drv, mode, aname, plan = j
         rid = "c15-%s-%s" % (sc["id"], drv)
-        o, recs, n = evplane.traced_tree_run(binary, sc, drv, rid, {"reflink": mode, "fsync": False}, plan=[plan] if plan else None, workers=2)
+        o, recs, n = evplane.traced_tree_run(binary, sc, drv, rid, {"reflink": mode, "fsync": False}, plan=[plan] if plan else None,
+                                             workers=2 if quick else [1, 2, 4, 8][__import__("zlib").crc32(rid.encode()) % 4])
         return o, recs, n
     res = runner.pmap(one, jobs)
     verdicts, st = evplane.judge([r[1] for r in res], len(res))
